@@ -327,3 +327,13 @@ def rule_commit(ctx):
 
 
 RULES.append(("C18.g", "branch-commit: between the decision to perform an effect and the effect there is no way out", rule_commit))
+
+
+def rule_deps(ctx):
+    from . import c01, c08
+    c01.rule_g(ctx)
+    c01.rule_i(ctx)
+    c08.rule_a(ctx)
+
+
+RULES.append(("C18.h", "the times passed to synchronize never decrease: time writes are monotone (C01.g/i, C08.a)", rule_deps))
